@@ -298,10 +298,17 @@ Record endpoint := {
   e_cc : Z;  e_timeout : Z;  e_cache : Z;  e_enc : string;  e_hdrs : list string;
   e_extra : obj }.
 
+(* an async agent: consumer timeout, workers, health interval (connection), its backends and
+   extra_config.  AgentStarter.Start builds its pipe with the same proxy factory as an
+   endpoint's, from a synthetic endpoint (agent_endpoint below). *)
+Record agent := {
+  a_name : string;  a_timeout : Z;  a_workers : Z;  a_health : Z;
+  a_backends : list backend;  a_extra : obj }.
+
 Record svc := {
   s_version : Z;  s_bad_addr : bool;  s_host : list string;
   s_timeout : Z;  s_cache : Z;  s_enc : string;  s_norest : bool;
-  s_endpoints : list endpoint }.
+  s_endpoints : list endpoint;  s_agents : list agent }.
 
 Definition noop : string := "no-op".
 
@@ -415,10 +422,35 @@ Section Init.
               e_extra := e_extra e |}))
     end.
 
+  (* the backend loop of initAsyncAgents: hosts, method, timeout, decoder - the url_pattern,
+     the header list and the concurrency are left as parsed *)
+  Definition init_agent_backend (shosts : list string) (timeout : Z) (b : backend) : result backend :=
+    bind (match b_host b with
+          | [] => Ok shosts
+          | _ => if b_nosan b then Ok (b_host b)
+                 else match clean_hosts (b_host b) with Some hs => Ok hs | None => Err EHost end
+          end) (fun hosts =>
+      Ok {| b_host := hosts; b_nosan := b_nosan b;
+            b_method := (if str_eqb (b_method b) "" then "GET" else b_method b); b_url := b_url b;
+            b_enc := b_enc b; b_coll := b_coll b; b_sd := b_sd b; b_hdrs := b_hdrs b;
+            b_allow := b_allow b; b_mapping := b_mapping b; b_extra := b_extra b;
+            b_keys := b_keys b; b_dec := decoder_of (to_lower (b_enc b)) (b_coll b);
+            b_timeout := timeout; b_cc := b_cc b |}).
+
+  Definition second : Z := 1000000000.
+  (* initAsyncAgentDefaults + the backend loop; s carries the values after initGlobalParams *)
+  Definition init_agent (s : svc) (a : agent) : result agent :=
+    let timeout := if negb (s_timeout s =? 0)%Z && (a_timeout a =? 0)%Z then s_timeout s else a_timeout a in
+    let workers := if (a_workers a <? 1)%Z then 1%Z else a_workers a in
+    let health := if (a_health a <? second)%Z then second else a_health a in
+    bind (mapM (init_agent_backend (s_host s) timeout) (a_backends a)) (fun bs =>
+      Ok {| a_name := a_name a; a_timeout := timeout; a_workers := workers; a_health := health;
+            a_backends := bs; a_extra := a_extra a |}).
+
   Definition default_timeout : Z := 2000000000.   (* config.DefaultTimeout, nanoseconds *)
   Definition config_version : Z := 3.
 
-  (* ServiceConfig.Init (no async agents) *)
+  (* ServiceConfig.Init: version, global parameters, async agents, endpoints *)
   Definition init (s : svc) : result svc :=
     if negb (s_version s =? config_version)%Z then Err EVersion
     else if s_bad_addr s then Err EAddress
@@ -429,10 +461,12 @@ Section Init.
       | Some hs =>
           let s1 := {| s_version := s_version s; s_bad_addr := false; s_host := hs; s_timeout := timeout;
                        s_cache := s_cache s; s_enc := s_enc s; s_norest := s_norest s;
-                       s_endpoints := s_endpoints s |} in
+                       s_endpoints := s_endpoints s; s_agents := s_agents s |} in
+          bind (mapM (init_agent s1) (s_agents s)) (fun ags =>
           bind (mapM (init_endpoint s1) (s_endpoints s)) (fun es =>
             Ok {| s_version := s_version s; s_bad_addr := false; s_host := hs; s_timeout := timeout;
-                  s_cache := s_cache s; s_enc := s_enc s; s_norest := s_norest s; s_endpoints := es |})
+                  s_cache := s_cache s; s_enc := s_enc s; s_norest := s_norest s; s_endpoints := es;
+                  s_agents := ags |}))
       end.
 End Init.
 
@@ -562,4 +596,10 @@ Definition factory_new (e : endpoint) : fres :=
   | [b] => stack_new b
   | bs => seq_f (all_f stack_new bs) (merge_new (e_extra e))
   end.
+(* the endpoint AgentStarter.Start hands to the proxy factory for an agent (after it gave the
+   name AsyncAgent-<i> to an unnamed agent; the name does not matter to the factory) *)
+Definition agent_endpoint (a : agent) : endpoint :=
+  {| e_path := a_name a; e_method := ""; e_backends := a_backends a; e_cc := 0; e_timeout := a_timeout a;
+     e_cache := 0; e_enc := ""; e_hdrs := []; e_extra := a_extra a |}.
+Definition agent_factory_new (a : agent) : fres := factory_new (agent_endpoint a).
 End Factory.
